@@ -3,6 +3,7 @@
    (b) every request cut off by split() is within max_size (the reservation arithmetic
        capacity - (DeltaSize capacity - capacity) - header is sound against the nested length prefixes). *)
 From Verif Require Import Common.Base C04.Model C04.Proofs C04.Proofs2.
+From Coq Require Import Permutation.
 Local Open Scope Z_scope.
 
 (* ---------------------------------------------------------------------------------------- *)
@@ -111,8 +112,12 @@ Proof.
     + destruct (extract_payload w sz p max) as [[d k] rm] eqn:E.
       pose proof (extract_payload_exact _ _ _ _ _ _ _ E) as Hk. rewrite <- Hk in H.
       destruct (rm <=? 0).
-      * inversion H; subst. apply Forall_app. split; [exact Hacc|]. constructor; [|constructor].
-        right. cbn. symmetry. apply payload_size_psum.
+      * destruct (first_weight w (items_of k) =? 0).
+        -- inversion H; subst. apply Forall_app. split; [exact Hacc|]. constructor; [|constructor].
+           right. cbn. symmetry. apply payload_size_psum.
+        -- destruct (extract_payload w Items k (first_weight w (items_of k))) as [[d1 k1] rm1].
+           rewrite payload_size_psum in H. eapply IH; [|exact H].
+           apply Forall_app. split; [exact Hacc|]. constructor; [|constructor]. left. reflexivity.
       * eapply IH; [|exact H]. apply Forall_app. split; [exact Hacc|]. constructor; [|constructor]. left. reflexivity.
     + inversion H; subst. apply Forall_app. split; [exact Hacc|].
       constructor; [|constructor]. right. cbn. symmetry. apply payload_size_psum.
@@ -250,29 +255,44 @@ Proof.
               Hpart _ _ _ _ _ _ Hwf E) as [->|[B0 [B1 B2]]]; [cbn; lia|lia].
 Qed.
 
-(* the last request of a split that stopped without progress: the extraction that produced it removed nothing *)
-Definition no_progress (w : item -> Z) (sz : sizer) (max : Z) (last : req) : Prop :=
+(* a request cut out by the count sizer because nothing fitted: the first item of what was left (with the item-less
+   units in front of it) *)
+Definition isolated (w : item -> Z) (q : req) : Prop :=
+  exists k k1 rm, first_weight w (items_of k) <> 0 /\
+    extract_payload w Items k (first_weight w (items_of k)) = (rp q, k1, rm).
+
+(* the last request of a split that stopped: nothing could be removed and no item is left *)
+Definition itemless_remainder (w : item -> Z) (sz : sizer) (max : Z) (last : req) : Prop :=
+  first_weight w (items_of (rp last)) = 0 /\
   exists p0 d0 rm0, extract_payload w sz p0 max = (d0, rp last, rm0) /\ rm0 <= 0.
 
 Lemma split_loop_bound : forall fuel w sz max p cached acc out,
   wf_p w sz p -> 0 <= max ->
   split_loop fuel w sz max p cached acc = Some out ->
-  exists ds last, out = acc ++ ds ++ [last] /\ Forall (fun q => payload_size w sz (rp q) <= max) ds /\
-                  (rcached last <= max \/ no_progress w sz max last).
+  exists ds last, out = acc ++ ds ++ [last] /\
+    Forall (fun q => payload_size w sz (rp q) <= max \/ isolated w q) ds /\
+    (rcached last <= max \/ itemless_remainder w sz max last).
 Proof.
   induction fuel as [|f IH]; intros w sz max p cached acc out Hwf Hmax H; cbn [split_loop] in H.
   - destruct (cached >? max) eqn:Eg; [discriminate|]. rewrite Z.gtb_ltb in Eg. apply Z.ltb_ge in Eg.
     inversion H; subst. exists [], {| rp := p; rcached := cached |}. cbn. auto.
   - destruct (cached >? max) eqn:Eg.
     + destruct (extract_payload w sz p max) as [[d k] rm] eqn:E.
-      destruct (extract_payload_perm _ _ _ _ _ _ _ Hwf E) as [_ Hwk].
+      destruct (extract_payload_perm _ _ _ _ _ _ _ _ Hwf E) as [_ Hwk].
       pose proof (extract_payload_cap _ _ _ _ _ _ _ Hwf Hmax E) as Hd.
       destruct (rm <=? 0) eqn:Eb.
-      * apply Z.leb_le in Eb. inversion H; subst. exists [], {| rp := k; rcached := cached - rm |}. cbn [app].
-        split; [reflexivity|]. split; [constructor|]. right. exists p, d, rm. cbn [rp]. auto.
+      * apply Z.leb_le in Eb. destruct (first_weight w (items_of k) =? 0) eqn:En.
+        -- apply Z.eqb_eq in En. inversion H; subst. exists [], {| rp := k; rcached := cached - rm |}. cbn [app].
+           split; [reflexivity|]. split; [constructor|]. right. split; [exact En|]. exists p, d, rm. cbn [rp]. auto.
+        -- apply Z.eqb_neq in En.
+           destruct (extract_payload w Items k (first_weight w (items_of k))) as [[d1 k1] rm1] eqn:E1.
+           destruct (extract_payload_perm _ _ _ _ _ _ _ _ Hwk E1) as [_ Hwk1].
+           destruct (IH _ _ _ _ _ _ _ Hwk1 Hmax H) as [ds [last [Ho [Hf Hl]]]].
+           exists ({| rp := d1; rcached := -1 |} :: ds), last. rewrite Ho, <- app_assoc. split; [reflexivity|].
+           split; [constructor; [right; exists k, k1, rm1; cbn [rp]; auto|exact Hf]|exact Hl].
       * destruct (IH _ _ _ _ _ _ _ Hwk Hmax H) as [ds [last [Ho [Hf Hl]]]].
         exists ({| rp := d; rcached := -1 |} :: ds), last. rewrite Ho, <- app_assoc. split; [reflexivity|].
-        split; [constructor; [exact Hd|exact Hf]|exact Hl].
+        split; [constructor; [left; exact Hd|exact Hf]|exact Hl].
     + rewrite Z.gtb_ltb in Eg. apply Z.ltb_ge in Eg.
       inversion H; subst. exists [], {| rp := p; rcached := cached |}. cbn. auto.
 Qed.
@@ -280,8 +300,9 @@ Qed.
 Lemma batch_size_bound_all_l : forall w sz max a b out,
   wf_p w sz (rp a) -> wf_opt w sz b -> 1 <= max ->
   merge_split w sz max a b = Some out ->
-  exists ds last, out = ds ++ [last] /\ Forall (fun q => payload_size w sz (rp q) <= max) ds /\
-                  (rcached last <= max \/ no_progress w sz max last).
+  exists ds last, out = ds ++ [last] /\
+    Forall (fun q => payload_size w sz (rp q) <= max \/ isolated w q) ds /\
+    (rcached last <= max \/ itemless_remainder w sz max last).
 Proof.
   intros w sz max a b out Ha Hb Hmax H. unfold merge_split in H.
   assert (Hw : wf_p w sz (rp (merged w sz a b))).
@@ -290,4 +311,222 @@ Proof.
   assert (H0 : 0 <= max) by lia.
   destruct (split_loop_bound _ _ _ _ _ _ _ _ Hw H0 H) as [ds [last [Ho Hr]]].
   exists ds, last. split; [exact Ho|exact Hr].
+Qed.
+
+(* unit weights (logs, traces): a request cut out by the count sizer holds EXACTLY ONE item *)
+Lemma first_weight_unit l : first_weight w_unit l <> 0 -> first_weight w_unit l = 1 /\ l <> [].
+Proof. destruct l; cbn; [congruence|]. intros _. split; [reflexivity|discriminate]. Qed.
+
+Lemma isolated_unit_one q : isolated w_unit q -> count (rp q) = 1.
+Proof.
+  intros [k [k1 [rm [Hn E]]]]. destruct (first_weight_unit _ Hn) as [H1 Hne]. rewrite H1 in E.
+  assert (H01 : 0 <= 1) by lia.
+  destruct (extract_payload_items _ _ _ _ _ H01 E) as [_ [Hd _]].
+  rewrite <- T_count, Hd. assert (1 <= T k) by (rewrite T_count; unfold count; destruct (items_of k); [congruence|cbn [length]; lia]). lia.
+Qed.
+
+(* metrics, bytes sizer (since 9e189f99b) *)
+(* the fragment cut out of a metric now fits where it is put: for every capacity and every list of points *)
+Lemma fragment_fits_l : forall m cap e rest er,
+  wf_metric Bytes m -> extract_metric Bytes m cap = (e, rest, er) -> mpts e <> [] ->
+  delta Bytes (metric_size Bytes e) <= cap.
+Proof.
+  intros m cap e rest er [H1 [H2 Hp]] H Hne. unfold extract_metric in H. destruct (mkind m =? 0) eqn:Ek.
+  - inversion H; subst. cbn in Hne. congruence.
+  - destruct (walk Bytes (point_size Bytes) None (fun _ => true) (mpts m) _ 0) as [[d k] rm] eqn:E.
+    inversion H; subst; clear H. cbn [mpts] in Hne.
+    assert (Qnn : forall c : item, wf_item Bytes c -> 0 <= delta Bytes (point_size Bytes c)) by (intros c [A B]; lia).
+    destruct (walk_cap Bytes (point_size Bytes) None (fun _ => true) (wf_item Bytes) Qnn
+                (fun ex Hex => ltac:(discriminate Hex)) _ _ _ _ _ _ Hp E) as [->|[B0 [B1 B2]]]; [congruence|].
+    unfold metric_size; cbn [mkind mhdr mdhdr mpts]. rewrite Ek.
+    set (S := sumZf (fun c => delta Bytes (point_size Bytes c)) d) in *.
+    unfold inner_cap, metric_size in B0, B2. cbn [mkind mhdr mdhdr mpts sumZf hdr] in B0, B2. rewrite Ek in B0, B2.
+    cbn [hdr delta] in *. replace (0 + 0) with 0 in * by reflexivity. replace (0 + S) with S by lia.
+    assert (E0 : sov 0 = 1) by reflexivity. rewrite E0 in *.
+    pose proof (sov_pos0 cap) as Pc. pose proof (sov_pos0 S) as Ps.
+    assert (HS : S <= cap - 2 - 2 * sov cap) by lia.
+    assert (Hle : S <= cap) by lia.
+    pose proof (sov_mono S cap B1 Hle) as M1.
+    assert (Hy : 0 <= 1 + S + sov S) by lia.
+    assert (Hy2 : 1 + S + sov S <= cap) by lia.
+    pose proof (sov_mono (1 + S + sov S) cap Hy Hy2) as M2. replace (0 + (1 + S + sov S)) with (1 + S + sov S) by lia. lia.
+Qed.
+
+(* ---------------------------------------------------------------------------------------- *)
+(* (c) termination of the repaired split loop (logs / traces: unit weights)                   *)
+(* ---------------------------------------------------------------------------------------- *)
+(* what is left after an extraction is not larger than what was there, measured with ANY sizer *)
+Section WalkMono.
+  Context {A : Type}.
+  Variable sz : sizer.
+  Variable csize : A -> Z.
+  Variable part : option (A -> Z -> A * A * Z).
+  Variable keep_ext : A -> bool.
+  Variable g : A -> Z.
+  Variable P : A -> Prop.
+  Hypothesis part_mono : forall ex, part = Some ex -> forall c cap e rest er,
+    P c -> ex c cap = (e, rest, er) -> g rest <= g c /\ P rest.
+
+  Lemma walk_mono : forall l cap rm d k rm',
+    Forall P l -> walk sz csize part keep_ext l cap rm = (d, k, rm') ->
+    (forall c, P c -> 0 <= g c) -> sumZf g k <= sumZf g l /\ Forall P k.
+  Proof.
+    induction l as [|c l IH]; intros cap rm d k rm' HP Hw Hnn; cbn [walk] in Hw.
+    - inversion Hw; subst. split; [lia|constructor].
+    - inversion HP as [|? ? Pc Pl]; subst. pose proof (Hnn c Pc) as Hc. cbn [sumZf].
+      destruct (cap =? 0).
+      + destruct (walk sz csize part keep_ext l cap rm) as [[d0 k0] rm0] eqn:E.
+        inversion Hw; subst. destruct (IH _ _ _ _ _ Pl E Hnn). cbn [sumZf]. split; [lia|constructor; assumption].
+      + destruct (delta sz (csize c) >? cap).
+        * destruct part as [ex|] eqn:Epart.
+          -- destruct (ex c cap) as [[e rest] er] eqn:Eex.
+             destruct (part_mono ex eq_refl c cap e rest er Pc Eex) as [Hg Pr].
+             destruct (walk sz csize (Some ex) keep_ext l 0 _) as [[d0 k0] rm0] eqn:E.
+             inversion Hw; subst. destruct (IH _ _ _ _ _ Pl E Hnn). cbn [sumZf]. split; [lia|constructor; assumption].
+          -- destruct (walk sz csize None keep_ext l 0 rm) as [[d0 k0] rm0] eqn:E.
+             inversion Hw; subst. destruct (IH _ _ _ _ _ Pl E Hnn). cbn [sumZf]. split; [lia|constructor; assumption].
+        * destruct (walk sz csize part keep_ext l (cap - delta sz (csize c)) _) as [[d0 k0] rm0] eqn:E.
+          inversion Hw; subst. destruct (IH _ _ _ _ _ Pl E Hnn). split; [lia|assumption].
+  Qed.
+End WalkMono.
+
+Lemma delta_le sz x y : 0 <= x -> x <= y -> delta sz x <= delta sz y.
+Proof. intros Hx Hxy. pose proof (delta_mono sz x y Hx Hxy). lia. Qed.
+
+Lemma extract_scope_mono w sz szx s cap e rest er :
+  wf_s w sz s -> extract_scope w szx s cap = (e, rest, er) ->
+  delta sz (scope_size w sz rest) <= delta sz (scope_size w sz s) /\ wf_s w sz rest.
+Proof.
+  unfold extract_scope. intros [Hh Hi] H.
+  destruct (walk szx (item_size w szx) None (fun _ => true) (sitems s) _ 0) as [[d k] rm] eqn:E.
+  inversion H; subst; clear H.
+  destruct (walk_mono szx (item_size w szx) None (fun _ => true) (fun i => delta sz (item_size w sz i)) (wf_i w sz)
+              (fun ex Hex => ltac:(discriminate Hex)) _ _ _ _ _ _ Hi E (item_nn w sz)) as [Hm Hk].
+  assert (Hwr : wf_s w sz {| sctx := sctx s; shdr := shdr s; sitems := k |}) by (split; assumption).
+  split; [|exact Hwr]. destruct (wf_s_size _ _ _ Hwr) as [A _]. apply delta_le; [exact A|].
+  unfold scope_size; cbn [shdr sitems]. lia.
+Qed.
+
+Lemma extract_res_mono w sz szx r cap e rest er :
+  wf_r w sz r -> extract_res w szx r cap = (e, rest, er) ->
+  delta sz (res_size w sz rest) <= delta sz (res_size w sz r) /\ wf_r w sz rest.
+Proof.
+  unfold extract_res. intros [Hh Hs] H.
+  destruct (walk szx (scope_size w szx) (Some (extract_scope w szx)) scope_nonempty (rscopes r) _ 0) as [[d k] rm] eqn:E.
+  inversion H; subst; clear H.
+  assert (Hp : forall ex, Some (extract_scope w szx) = Some ex -> forall c cap0 e0 rest0 er0,
+            wf_s w sz c -> ex c cap0 = (e0, rest0, er0) ->
+            delta sz (scope_size w sz rest0) <= delta sz (scope_size w sz c) /\ wf_s w sz rest0).
+  { intros ex Hex; inversion Hex; subst. intros. eapply extract_scope_mono; eauto. }
+  destruct (walk_mono szx (scope_size w szx) (Some (extract_scope w szx)) scope_nonempty (fun c => delta sz (scope_size w sz c)) (wf_s w sz)
+              Hp _ _ _ _ _ _ Hs E (scope_nn w sz)) as [Hm Hk].
+  assert (Hwr : wf_r w sz {| rctx := rctx r; rhdr := rhdr r; rscopes := k |}) by (split; assumption).
+  split; [|exact Hwr]. destruct (wf_r_size _ _ _ Hwr) as [A _]. apply delta_le; [exact A|].
+  unfold res_size; cbn [rhdr rscopes]. lia.
+Qed.
+
+Lemma extract_payload_mono w sz szx p cap d k rm :
+  wf_p w sz p -> extract_payload w szx p cap = (d, k, rm) -> psum w sz k <= psum w sz p.
+Proof.
+  unfold extract_payload. intros Hwf E.
+  assert (Hp : forall ex, Some (extract_res w szx) = Some ex -> forall c cap0 e0 rest0 er0,
+            wf_r w sz c -> ex c cap0 = (e0, rest0, er0) ->
+            delta sz (res_size w sz rest0) <= delta sz (res_size w sz c) /\ wf_r w sz rest0).
+  { intros ex Hex; inversion Hex; subst. intros. eapply extract_res_mono; eauto. }
+  exact (proj1 (walk_mono szx (res_size w szx) (Some (extract_res w szx)) res_nonempty (fun c => delta sz (res_size w sz c)) (wf_r w sz)
+              Hp _ _ _ _ _ _ Hwf E (res_nn w sz))).
+Qed.
+
+Lemma items_split_length w sz szx p cap d k rm :
+  wf_p w sz p -> extract_payload w szx p cap = (d, k, rm) ->
+  (length (items_of d) + length (items_of k) = length (items_of p))%nat.
+Proof.
+  intros Hwf E. destruct (extract_payload_perm _ _ _ _ _ _ _ _ Hwf E) as [Hp _].
+  apply Permutation_length in Hp. rewrite app_length in Hp. rewrite !items_iflat, !map_length. exact Hp.
+Qed.
+
+(* logs / traces: the loop started on an exact memo always returns *)
+Lemma split_loop_total_unit : forall fuel sz max p acc,
+  wf_p w_unit sz p -> (Z.to_nat (psum w_unit sz p - max) + length (items_of p) < fuel)%nat ->
+  exists out, split_loop fuel w_unit sz max p (psum w_unit sz p) acc = Some out.
+Proof.
+  induction fuel as [|f IH]; intros sz max p acc Hwf Hf; [lia|]. cbn [split_loop].
+  destruct (psum w_unit sz p >? max) eqn:Eg; [|eauto]. rewrite Z.gtb_ltb in Eg. apply Z.ltb_lt in Eg.
+  destruct (extract_payload w_unit sz p max) as [[d k] rm] eqn:E.
+  destruct (extract_payload_perm _ _ _ _ _ _ _ _ Hwf E) as [_ Hwk].
+  pose proof (extract_payload_exact _ _ _ _ _ _ _ E) as Hk.
+  pose proof (extract_payload_removed _ _ _ _ _ _ _ Hwf E) as Hrm.
+  pose proof (items_split_length _ _ _ _ _ _ _ _ Hwf E) as Hlen.
+  destruct (rm <=? 0) eqn:Eb.
+  - apply Z.leb_le in Eb. assert (rm = 0) by lia. subst rm. rewrite Z.sub_0_r in *.
+    destruct (first_weight w_unit (items_of k) =? 0) eqn:En; [eauto|]. apply Z.eqb_neq in En.
+    destruct (first_weight_unit _ En) as [H1 Hne]. rewrite H1.
+    destruct (extract_payload w_unit Items k 1) as [[d1 k1] rm1] eqn:E1.
+    pose proof (extract_payload_mono _ _ _ _ _ _ _ _ Hwk E1) as Hm.
+    pose proof (items_split_length _ _ _ _ _ _ _ _ Hwk E1) as Hlen1.
+    assert (H01 : 0 <= 1) by lia.
+    destruct (extract_payload_items _ _ _ _ _ H01 E1) as [_ [Hd1 _]].
+    assert (HT : 1 <= T k) by (rewrite T_count; unfold count; destruct (items_of k); [congruence|cbn [length]; lia]).
+    rewrite Z.min_l in Hd1 by lia. rewrite T_count in Hd1. unfold count in Hd1.
+    destruct (extract_payload_perm _ _ _ _ _ _ _ _ Hwk E1) as [_ Hwk1].
+    rewrite payload_size_psum. apply IH; [exact Hwk1|]. lia.
+  - apply Z.leb_gt in Eb. rewrite <- Hk. apply IH; [exact Hwk|]. lia.
+Qed.
+
+Lemma merge_split_total_unit sz max a b :
+  wf_p w_unit sz (rp a) -> wf_opt w_unit sz b -> memo_ok w_unit sz a -> memo_ok_opt w_unit sz b ->
+  exists out, merge_split w_unit sz max a b = Some out.
+Proof.
+  intros Ha Hb Ma Mb. unfold merge_split. destruct (max =? 0); [eauto|].
+  pose proof (merged_memo w_unit sz a b Ma Mb) as Hm.
+  assert (Hw : wf_p w_unit sz (rp (merged w_unit sz a b))).
+  { destruct b; simpl; [|exact Ha]. unfold wf_p. apply Forall_app. split; assumption. }
+  rewrite (memo_req_size _ _ _ Hm), payload_size_psum. apply split_loop_total_unit; [exact Hw|]. unfold fuel_of. lia.
+Qed.
+
+(* ---------------------------------------------------------------------------------------- *)
+(* (d) the size bound in the property's wording (logs / traces: one item = one record / span) *)
+(* ---------------------------------------------------------------------------------------- *)
+Lemma split_loop_last_exact : forall fuel w sz max p acc out,
+  split_loop fuel w sz max p (psum w sz p) acc = Some out ->
+  exists front last, out = front ++ [last] /\ rcached last = payload_size w sz (rp last).
+Proof.
+  induction fuel as [|f IH]; intros w sz max p acc out H; cbn [split_loop] in H.
+  - destruct (psum w sz p >? max); [discriminate|]. inversion H; subst. eexists; eexists. split; [reflexivity|].
+    cbn. symmetry. apply payload_size_psum.
+  - destruct (psum w sz p >? max).
+    + destruct (extract_payload w sz p max) as [[d k] rm] eqn:E.
+      pose proof (extract_payload_exact _ _ _ _ _ _ _ E) as Hk. rewrite <- Hk in H.
+      destruct (rm <=? 0).
+      * destruct (first_weight w (items_of k) =? 0).
+        -- inversion H; subst. eexists; eexists. split; [reflexivity|]. cbn. symmetry. apply payload_size_psum.
+        -- destruct (extract_payload w Items k (first_weight w (items_of k))) as [[d1 k1] rm1].
+           rewrite payload_size_psum in H. eapply IH; exact H.
+      * eapply IH; exact H.
+    + inversion H; subst. eexists; eexists. split; [reflexivity|]. cbn. symmetry. apply payload_size_psum.
+Qed.
+
+(* every request that MergeSplit returns is within max_size (true, recomputed size in the active unit) or holds
+   exactly ONE record / span (the unit that does not fit alone, isolated by ffc8e5fcc); only the LAST request may
+   also be above max_size while holding NO item: item-less containers (resources / scopes without records) that do
+   not fit — there is nothing the split could isolate *)
+Lemma batch_size_bound_unit_l : forall sz max a b out,
+  wf_p w_unit sz (rp a) -> wf_opt w_unit sz b -> memo_ok w_unit sz a -> memo_ok_opt w_unit sz b -> 1 <= max ->
+  merge_split w_unit sz max a b = Some out ->
+  exists ds last, out = ds ++ [last] /\
+    Forall (fun q => payload_size w_unit sz (rp q) <= max \/ count (rp q) = 1) ds /\
+    (payload_size w_unit sz (rp last) <= max \/ (count (rp last) = 0 /\ itemless_remainder w_unit sz max last)).
+Proof.
+  intros sz max a b out Ha Hb Ma Mb Hmax H.
+  destruct (batch_size_bound_all_l _ _ _ _ _ _ Ha Hb Hmax H) as [ds [last [Ho [Hds Hl]]]].
+  exists ds, last. split; [exact Ho|]. split.
+  - eapply Forall_impl; [|exact Hds]. intros q [Hq|Hq]; [now left|right; now apply isolated_unit_one].
+  - destruct Hl as [Hl|Hl].
+    + left. unfold merge_split in H. destruct (max =? 0) eqn:E0; [apply Z.eqb_eq in E0; lia|].
+      pose proof (merged_memo w_unit sz a b Ma Mb) as Hm.
+      rewrite (memo_req_size _ _ _ Hm), payload_size_psum in H.
+      destruct (split_loop_last_exact _ _ _ _ _ _ _ H) as [front [last' [Ho' Hex]]].
+      rewrite Ho in Ho'. apply app_inj_tail in Ho'. destruct Ho' as [_ <-]. lia.
+    + right. split; [|exact Hl]. destruct Hl as [Hz _]. unfold count.
+      destruct (items_of (rp last)); [reflexivity|cbn in Hz; discriminate].
 Qed.
